@@ -12,17 +12,22 @@ par clang++ -std=c++17 -c -O0 $DEF -I$REPO -I$MC -I$H $H/c13_dispatch.cpp -o $BU
 par clang++ -std=c++17 -O2 -c -I$MC $MC/mc.cpp -o $BUILD/mc.o
 # re-entrancy run: the engine (and the libc entry points on top of it) under ThreadSanitizer, two threads on the
 # controlled scheduler (sched.cpp and mc.cpp stay uninstrumented: TSan then sees only what the code under test does)
-TF="-O1 -g -fsanitize=thread -fno-omit-frame-pointer -I$REPO -I$MC"
+TF="-O1 -g -DNDEBUG -fsanitize=thread -fno-omit-frame-pointer -I$REPO -I$MC" # the TSan build is also the release (NDEBUG) build
 par gcc -c $TF $REPO/igris/util/printf_impl.c -o $BUILD/printf_impl_tsan.o
 par gcc -c $TF -fno-builtin -Wno-implicit-function-declaration $REPO/compat/libc/stdio/sprintf.c -o $BUILD/sprintf_tsan.o
 par gcc -c $TF -fno-builtin -Wno-implicit-function-declaration $REPO/compat/libc/stdio/fdprintf.c -o $BUILD/fdprintf_tsan.o
 par g++ -std=c++17 -c $TF -DREENT_ID='"C13"' -DREENT_FLOAT $H/c13_reentrancy.cpp -o $BUILD/h_tsan.o
 par g++ -std=c++17 -O2 -g -I$MC -c $MC/sched/sched.cpp -o $BUILD/sched.o
 par g++ -std=c++17 -O2 -c -I$MC $MC/mc.cpp -o $BUILD/mc_gcc.o
+# build-mode variant of the engine: the other compiler at -O2, release mode (-DNDEBUG) and plain char unsigned
+# (-funsigned-char); no sanitizer, harness objects shared with the main build
+par gcc -c -O2 -g -DNDEBUG -funsigned-char -I$REPO $REPO/igris/util/printf_impl.c -o $BUILD/printf_impl_var.o
 parwait
+clang++ $BUILD/h.o $BUILD/d.o $BUILD/printf_impl_var.o $BUILD/mc.o -lm -ldl -o $BUILD/c13_variant
 objcopy --redefine-sym sprintf=igc_sprintf --redefine-sym vsprintf=igc_vsprintf --redefine-sym snprintf=igc_snprintf $BUILD/sprintf_tsan.o
 objcopy --redefine-sym fdprintf=igc_fdprintf --redefine-sym vfdprintf=igc_vfdprintf --redefine-sym fdputc=igc_fdputc $BUILD/fdprintf_tsan.o
 g++ -fsanitize=thread $BUILD/h_tsan.o $BUILD/printf_impl_tsan.o $BUILD/sprintf_tsan.o $BUILD/fdprintf_tsan.o $BUILD/sched.o $BUILD/mc_gcc.o -lm -ldl -lpthread -o $BUILD/c13_tsan
 clang++ $SAN $BUILD/h.o $BUILD/d.o $BUILD/printf_impl.o $BUILD/mc.o -lm -o $BUILD/c13
 echo "printf_float $BUILD/c13" > $BUILD/runs.txt
 echo "reentrancy $BUILD/c13_tsan" >> $BUILD/runs.txt
+echo "ndebug_unsigned_char_gcc_O2 $BUILD/c13_variant --only flags_x_widths,wide_fields,long_precisions,first_conversion,reentrant_callback" >> $BUILD/runs.txt
